@@ -24,6 +24,7 @@ RULE = (
 )
 RULE += '; the same State instance may be recorded twice into one scope'
 RULE += '; template: block left, scope not yet completed (nested scope held open), another task records into it'
+RULE += '; every completion callback asks for the merged view twice, with two different merge functions'
 LEVEL_TEXT = (
     "Reference fold: the harness logs (scope, type, id, merge) for every record in execution order; in each scope's "
     "completion callback read(T) must equal the left fold of that scope's own records and metrics(merge=m) the "
@@ -164,6 +165,33 @@ def run_case(case) -> Outcome:
                     f"C10.merged/{'wrong-order' if same_set else 'wrong-content'}",
                     f"scope {s} type {tname}: merged view {got}, expected {exp}",
                 )
+        # the second view (prepending merge) of the same scope
+        def merged_rev(node, tname):
+            o = fold(own.get(node, {}).get(tname, []))
+            if len(o) > 1:
+                return "unspecified"
+            parts = [tuple(next(iter(o)) or ())]
+            for c in creation:
+                if parent.get(c) == node:
+                    m = merged_rev(c, tname)
+                    if m == "unspecified":
+                        return "unspecified"
+                    parts.append(tuple(m or ()))
+            vals = [x for part in reversed([p for p in parts if p]) for x in part]
+            return tuple(vals) if vals else None
+
+        if "merged_rev" in comp:
+            for tname in P.METRICS:
+                exp = merged_rev(s, tname)
+                if exp == "unspecified":
+                    continue
+                got = comp["merged_rev"].get(tname)
+                if got != exp:
+                    out.violate(
+                        "merged",
+                        "C10.merged/second-view-with-another-merge-function-wrong",
+                        f"scope {s} type {tname}: second view (prepending merge) {got}, expected {exp}; first view {comp['merged'].get(tname)}",
+                    )
         if any(parent.get(c) == s and own.get(c) for c in creation) and own.get(s):
             classes.add("two-levels")
     sib = {}
